@@ -254,9 +254,15 @@ def r29(ctx: Ctx) -> RuleReport:
         want = bn.mk_or([HAS, bn.mk_and([ENDS, ('atom', 'self._has_role(BASE)')])])
         known = set(bn.atoms_of(f)) <= {HAS[1], ENDS[1], 'self._has_role(BASE)'}
         d = bn.equivalent(f, want)
-        rep.add(f'{hr.fq}: defined directly or as a single inversion of a defined role', hr.loc(),
-                'ok' if d is None else ('violation' if known else 'undecided'),
-                bn.show(f) if d is None else f'is {bn.show(f)}; differs for {d}')
+        recursive = [a for a in bn.atoms_of(f) if a.replace(' ', '') in ('self.has_role(BASE)', f'self.{hr.name}(BASE)')]
+        if d is not None and recursive:
+            rep.violation(f'{hr.fq}: defined directly or as a single inversion of a defined role', hr.loc(),
+                          f'the role without its -of is tested with {hr.name} itself ({bn.show(f)}): the test recurses, so ANY number of -of suffixes on a defined role is accepted '
+                          f'(":ARG0-of-of-of") - Model.errors then reports no "invalid role" for a role that is valid only after several de-inversions')
+        else:
+            rep.add(f'{hr.fq}: defined directly or as a single inversion of a defined role', hr.loc(),
+                    'ok' if d is None else ('violation' if known else 'undecided'),
+                    bn.show(f) if d is None else f'is {bn.show(f)}; differs for {d}')
     except AnalysisError as exc:
         rep.undecided(f'{hr.fq}: boolean function', hr.loc(), str(exc))
     # membership: an anchored pattern of all role alternatives, matched as a whole
@@ -455,6 +461,8 @@ def r40(ctx: Ctx) -> RuleReport:
                         for y in ast.walk(x.value):
                             if isinstance(y, ast.Call) and isinstance(y.func, ast.Attribute) and y.func.attr == 'variables':
                                 feeds.append(('bad', x, norm(x.value)[:60]))
+                            if isinstance(y, ast.Call) and isinstance(y.func, ast.Attribute) and y.func.attr in ('instances', 'edges', 'attributes') and norm(y.func.value) == gp:
+                                feeds.append(('subset', x, norm(x.value)[:60]))
                         if isinstance(x.value, ast.Dict) and not x.value.keys or (isinstance(x.value, ast.Call) and norm(x.value.func) in ('dict', 'defaultdict')):
                             feeds.append(('empty', x, norm(x.value)[:40]))
                         elif not any(f[1] is x for f in feeds):
@@ -466,7 +474,12 @@ def r40(ctx: Ctx) -> RuleReport:
                     k = norm(x.args[0])
                     feeds.append(('source' if any(k == r0 for r0 in _slot0_names(loop, tv)) else 'unknown', x, f'{mp}.setdefault({k}, ...)'))
             bad = [f for f in feeds if f[0] == 'bad']
-            if bad:
+            sub = [f for f in feeds if f[0] == 'subset']
+            if sub:
+                rep.violation(key, fi.loc(sub[0][1]), f'`{mp}` is built from `{sub[0][2]}`: only the sources of one kind of triple, not of all triples. A top that is the source of '
+                              f'relations but has no triple of that kind (a node without an :instance triple in a hand-built graph) is reported as "top is not a variable in the '
+                              f'graph" although it is one, and the reachability pass is skipped, so unreachable triples are not reported either')
+            elif bad:
                 rep.violation(key, fi.loc(bad[0][1]), f'`{mp}` is seeded from `{bad[0][2]}`; Graph.variables() contains an explicitly set top even when no triple '
                               f'has it as its source, so `{norm(n)}` can never report "top is not a variable in the graph" and every triple is '
                               f'reported unreachable instead')
@@ -758,12 +771,47 @@ def r23model(ctx: Ctx) -> RuleReport:
         else:
             rep.undecided(key, co.loc(r), norm(first))
         second = e.elts[1]
-        rep.add(f'{co.fq}: second key component is alphanumeric_order(role)', co.loc(r),
-                'ok' if norm(second) == f'self.alphanumeric_order({cp})' else 'undecided', norm(second))
+        k2 = f'{co.fq}: second key component is alphanumeric_order(role)'
+        if norm(second) == f'self.alphanumeric_order({cp})':
+            rep.ok(k2, co.loc(r))
+        elif isinstance(second, ast.Call) and norm(second.func) == 'self.alphanumeric_order' and len(second.args) == 1 and isinstance(second.args[0], ast.Call) \
+                and norm(second.args[0].func) in ('self.invert_role', 'self.invert') and norm(second.args[0].args[0]) == cp:
+            rep.violation(k2, co.loc(r), f'the role is passed through `{norm(second.args[0])}` before it is keyed: invert_role TOGGLES - an ordinary role gets "-of" appended, so its trailing '
+                          f'number is no longer at the end and alphanumeric_order falls back to comparing strings: ":op10" sorts before ":op2", where the canonical key promises '
+                          f'numeric order of the suffixes')
+        else:
+            rep.undecided(k2, co.loc(r), norm(second))
     oo = repo.func(M, 'Model.original_order')
     for r in _ret_stmts(oo):
         rep.add(f'{oo.fq}: constant key (stable sort keeps the order)', oo.loc(r), 'ok' if isinstance(r.value, ast.Constant) else 'undecided')
     return rep
+
+
+def _fold_bool(e, env):
+    """(ok, value) of a condition over constants, with Python's short-circuit rules: `role and role[0] == ':'` is False for '' although role[0] does not fold"""
+    if isinstance(e, ast.BoolOp):
+        is_and = isinstance(e.op, ast.And)
+        unknown = False
+        for v in e.values:
+            ok, val = _fold_bool(v, env)
+            if not ok:
+                unknown = True
+                break           # what follows is only evaluated if this operand allows it: unknown from here on
+            if is_and and not val:
+                return True, val
+            if not is_and and val:
+                return True, val
+            last = val
+        if unknown:
+            return False, None
+        return True, last
+    if isinstance(e, ast.UnaryOp) and isinstance(e.op, ast.Not):
+        ok, val = _fold_bool(e.operand, env)
+        return (True, not val) if ok else (False, None)
+    try:
+        return try_fold(e, env)
+    except Exception:
+        return False, None
 
 
 @rule('R24m', 'canonicalize_role: colon, then inversion normalisation, then the normalisation table (last)')
@@ -814,6 +862,43 @@ def r24m(ctx: Ctx) -> RuleReport:
             rep.undecided(key, fi.loc(r), src[:110])
     colon = [n for n in walk_local(fi.node) if isinstance(n, ast.BinOp) and isinstance(n.op, ast.Add) and try_fold(n.left) == (True, ':')]
     rep.add(f'{fi.fq}: a missing leading colon is added', fi.loc(), 'ok' if colon else 'undecided')
+    # ... exactly for the roles that lack it (the tree's concept marker "/" alone is left as it is): the guard is evaluated on sample spellings
+    rp = fi.positional[1] if len(fi.positional) > 1 else 'role'
+    for c in colon:
+        fx = facts_ex(ctx, fi, c)
+        conds = []
+        for f, pol in sorted(fx):
+            try:
+                fe = ast.parse(f, mode='eval').body
+            except SyntaxError:
+                continue
+            if {x.id for x in ast.walk(fe) if isinstance(x, ast.Name)} == {rp}:
+                conds.append((f, fe, pol))
+        want = {'': True, 'ARG0': True, 'mod-of': True, '/x': True, 'x/y': True, '/': False, ':': False, ':ARG0': False, ':ARG0-of': False}
+        wrong, unknown = [], False
+        for smp, exp in want.items():
+            val, unk_here = True, False
+            for f, fe, pol in conds:
+                okv, v = _fold_bool(fe, {rp: smp})
+                if not okv:
+                    unk_here = True              # e.g. role[0] on the empty role: only reached if the other conjuncts hold
+                    continue
+                val = val and (bool(v) == pol)
+            if unk_here and val:
+                unknown = True
+                break
+            if val != exp:
+                wrong.append((smp, val))
+        key2 = f'{fi.fq}: the colon is added exactly to the roles that lack it'
+        if unknown or not conds:
+            rep.undecided(key2, fi.loc(c), f'the guard {[f for f, _, _ in conds]} does not fold on sample roles')
+        elif wrong:
+            smp, val = wrong[0]
+            rep.violation(key2, fi.loc(c), f'under {[(f, pol) for f, _, pol in conds]} the role {smp!r} is ' + ('given a colon although it has one / is the concept marker' if val else
+                          'left without a colon') + f' (all differing samples: {[w for w, _ in wrong]}): canonicalize_role({smp!r}) no longer equals canonicalize_role(":" + {smp!r}), '
+                          f'so "canonicalising adds the leading colon" fails for such a role')
+        else:
+            rep.ok(key2, fi.loc(c), f'{[f for f, _, _ in conds]}')
     # _canonicalize_inversion: inversions go in pairs
     ci = ctx.repo.func(M, 'Model._canonicalize_inversion')
     n_inv = 0
